@@ -59,6 +59,8 @@ class Arr:
 class Obj:
     a = 5
     b = 9
+    x = 21          # attribute names that collide with variable names on purpose
+    y = 22
 
     def __eq__(self, other):
         return isinstance(other, Obj)
